@@ -55,7 +55,7 @@ def gen_tq(rng, tier, mult):
         r = rng.fork("t%d" % ci)
         ops = []
         big = r.chance(1, 40)
-        tspace = r.choice([2, 5, 1000])
+        tspace = r.choice([2, 5, 1000, 5000, 10 ** 6, 3 * 10 ** 9])   # wide spans: comparisons must not truncate
         uspace = r.choice([1, 3, 999999])
         live, nextid = [], 0
         for _ in range(r.range(200, 1200) if big else r.range(1, 50)):
